@@ -194,3 +194,47 @@ Example C13_decode_nonvacuous :
   up4_digest_fseid [(167772161, 77)] [10; 0; 0; 2] = DIgnored /\
   up4_digest_fseid [(167772161, 77)] [10; 0; 0] = DCrash.
 Proof. vm_compute. repeat split; reflexivity. Qed.
+
+(* ---------------------------------------------------------------------------------------------------------
+   "However many reports arrive": the hand-off between Notify and the reader of the report channel
+   (Model/NotifyChan.v; the skeleton of Notify is regenerated from notifier.go on every run and must be the
+   blocking send the model describes).  For every capacity, every report list and EVERY schedule of caller, send
+   and reader: the reader receives exactly what was decided, in order - nothing is lost, duplicated or reordered
+   on the way -, the channel never holds more than its capacity, a caller inside the send can always be released
+   by the reader, and once all reports are made and the channel has drained, a report of every session that
+   reported has been received; the round-robin schedule reaches that end for every positive capacity: a full
+   queue delays a report, it never suppresses it (seeded change C13-m7). *)
+From UPF Require Import Model.NotifyChan Proofs.NotifyChanProofs Gen.NotifySkel_gen.
+
+Theorem C13_notify_is_a_blocking_send : notifier_notify = notify_skel.
+Proof. exact notify_skeleton_is_modelled. Qed.
+Print Assumptions C13_notify_is_a_blocking_send.
+
+Theorem C13_channel_conserves : forall cap rs sched,
+  let s := NotifyChan.run cap (NotifyChan.init rs) sched in
+  decided s = (consumed s ++ q s ++ opt_list (pend s))%list /\ (List.length (q s) <= cap)%nat.
+Proof. intros cap rs sched. exact (inv_run cap sched (NotifyChan.init rs) (inv_init cap rs)). Qed.
+Print Assumptions C13_channel_conserves.
+
+Theorem C13_blocked_caller_is_released : forall cap s v, (0 < cap)%nat -> pend s = Some v ->
+  NotifyChan.step cap s ASend <> s \/ NotifyChan.step cap s ARecv <> s.
+Proof. exact blocked_caller_progress. Qed.
+Print Assumptions C13_blocked_caller_is_released.
+
+Theorem C13_full_queue_never_suppresses : forall cap rs sched f,
+  let s := NotifyChan.run cap (NotifyChan.init rs) sched in
+  todo s = [] -> q s = [] -> pend s = None -> In f rs -> In f (consumed s).
+Proof. exact all_sessions_received. Qed.
+Print Assumptions C13_full_queue_never_suppresses.
+
+Theorem C13_backlog_completes : forall cap rs f, (0 < cap)%nat -> In f rs ->
+  In f (consumed (NotifyChan.run cap (NotifyChan.init rs) (drain_sched (List.length rs)))).
+Proof. exact round_robin_completes. Qed.
+Print Assumptions C13_backlog_completes.
+
+(* non-vacuity: capacity 1, five reports of three sessions, a schedule in which the caller blocks on the full
+   channel (second ASend is refused) before the reader runs *)
+Example C13_backlog_inhabited :
+  let s := NotifyChan.run 1 (NotifyChan.init [7; 8; 7; 9; 8]) [ACall; ASend; ACall; ASend; ARecv; ASend; ARecv; ACall; ACall; ASend; ARecv; ACall] in
+  consumed s = [7; 8; 9] /\ decided s = [7; 8; 9] /\ todo s = [] /\ q s = [] /\ pend s = None.
+Proof. vm_compute. repeat split. Qed.
